@@ -478,3 +478,112 @@ def unwrap_elem(ex, st, seq, v, node):
 
 
 M.unwrap_elem = unwrap_elem
+
+
+# ----------------------------------------------------------------------------------------------
+# tensors.poly: cores whose slices are explicit 1 x 2 / 2 x 2 / 2 x 1 matrices, written slice by slice
+m12 = z3.Function('m12', T.R, T.R, T.Mat)                       # np.array([[x, y]])
+m21 = z3.Function('m21', T.R, T.R, T.Mat)                       # np.array([[x], [y]])
+m22 = z3.Function('m22', T.R, T.R, T.R, T.R, T.Mat)             # np.array([[a, b], [c, e]])
+csl = z3.Function('csl', T.Core, T.I, T.Mat, T.Core)            # G with G[:, j, :] = A
+powf = z3.Function('powf', T.R, T.R, T.R)                       # x ** p for a symbolic exponent (uninterpreted, no axioms)
+_a, _b, _c, _e, _x, _y = z3.Reals('a!s b!s c!s e!s x!s y!s')
+_G = z3.Const('G!s', T.Core)
+_A = z3.Const('A!s', T.Mat)
+_j, _m = z3.Ints('j!s m!s')
+T.GROUPS['small'] = [
+    T.A([_x, _y], z3.And(T.rows(m12(_x, _y)) == 1, T.cols(m12(_x, _y)) == 2, T.ent(m12(_x, _y), 0, 0) == _x, T.ent(m12(_x, _y), 0, 1) == _y),
+        [m12(_x, _y)]),
+    T.A([_x, _y], z3.And(T.rows(m21(_x, _y)) == 2, T.cols(m21(_x, _y)) == 1, T.ent(m21(_x, _y), 0, 0) == _x, T.ent(m21(_x, _y), 1, 0) == _y),
+        [m21(_x, _y)]),
+    T.A([_a, _b, _c, _e], z3.And(T.rows(m22(_a, _b, _c, _e)) == 2, T.cols(m22(_a, _b, _c, _e)) == 2), [m22(_a, _b, _c, _e)]),
+    T.A([_G, _j, _A], z3.And(T.d0(csl(_G, _j, _A)) == T.d0(_G), T.d1(csl(_G, _j, _A)) == T.d1(_G), T.d2(csl(_G, _j, _A)) == T.d2(_G)),
+        [csl(_G, _j, _A)]),
+    T.A([_G, _j, _A, _m], z3.Implies(z3.And(T.rows(_A) == T.d0(_G), T.cols(_A) == T.d2(_G), 0 <= _j, _j < T.d1(_G)),
+                                     T.sl(csl(_G, _j, _A), _m) == z3.If(_m == _j, _A, T.sl(_G, _m))), [T.sl(csl(_G, _j, _A), _m)]),
+    T.A([_x, _y, _a, _b, _c, _e], T.mm(m12(_x, _y), m22(_a, _b, _c, _e))
+        == m12(T.rmul(_x, _a) + T.rmul(_y, _c), T.rmul(_x, _b) + T.rmul(_y, _e)), [T.mm(m12(_x, _y), m22(_a, _b, _c, _e))]),
+    T.A([_x, _y, _a, _b], T.mm(m12(_x, _y), m21(_a, _b)) == T.sc(T.rmul(_x, _a) + T.rmul(_y, _b)), [T.mm(m12(_x, _y), m21(_a, _b))]),
+]
+
+_orig_power = M.power
+
+
+def power(ex, st, a, b, node):
+    try:
+        return _orig_power(ex, st, a, b, node)
+    except ContractMismatch:
+        raise
+    except Unsupported:
+        if is_num(a) and is_num(b):
+            used('x ** p for a symbolic exponent -> powf(x, p) (uninterpreted: only the identity of the term is used)')
+            return powf(to_real(a), to_real(b))
+        raise
+
+
+M.power = power
+
+
+def _nums(ex, st, v):
+    """The numbers of a literal list [a, b, ...] (None if it is something else)."""
+    v = st.deref(v)
+    if isinstance(v, (VList, VTuple)) and v.items and all(is_num(x) for x in v.items):
+        return [to_real(x) for x in v.items]
+    return None
+
+
+_orig_array3 = M.FUNCS['np.array']
+
+
+def m_array3(ex, st, args, kwargs, node):
+    if len(args) == 1 and not kwargs:
+        v = st.deref(args[0])
+        flat = _nums(ex, st, v)
+        if flat is not None and len(flat) == 2:
+            used('np.array([a, b]) -> the vector (a, b)')
+            out = VArr((2,), None, 'lit1', 'f')
+            out.lit = tuple(flat)
+            return out
+        if isinstance(v, (VList, VTuple)) and len(v.items) == 2:
+            rows_ = [_nums(ex, st, r) for r in v.items]
+            if all(r is not None and len(r) == 2 for r in rows_):
+                used('np.array([[a, b], [c, e]]) -> the 2 x 2 matrix')
+                out = VArr((2, 2), m22(rows_[0][0], rows_[0][1], rows_[1][0], rows_[1][1]), 'mat', 'f')
+                out.lit = (tuple(rows_[0]), tuple(rows_[1]))
+                return out
+    return _orig_array3(ex, st, args, kwargs, node)
+
+
+for _nm in ('np.array', 'np.asanyarray', 'np.asarray'):
+    M.FUNCS[_nm] = m_array3
+
+_orig_setitem2 = M.arr_setitem
+
+
+def arr_setitem2(ex, st, b, sl_, v, node):
+    if isinstance(b, VArr) and b.ndim == 3 and b.tag == 'core' and b.t is not None and isinstance(sl_, ast.Tuple) and len(sl_.elts) == 3 \
+            and not isinstance(sl_.elts[1], ast.Slice):
+        full = lambda e: isinstance(e, ast.Slice) and e.lower is None and e.upper is None and e.step is None
+        e0, e1, e2 = sl_.elts
+        val = st.deref(v)
+        lit = getattr(val, 'lit', None) if isinstance(val, VArr) else None
+        A_ = None
+        if lit is not None and val.ndim == 1 and not isinstance(e0, ast.Slice) and full(e2) and ex.ev(e0, st) == 0:
+            used('G[0, m, :] = (a, b) on a core with r1 = 1, r2 = 2 -> slice m becomes the row [[a, b]]')
+            ex.oblige(st, 'call-pre', 'row-store-fills-the-whole-slice (r1 = 1, r2 = 2)', z3.And(Z(b.shape[0]) == 1, Z(b.shape[2]) == 2), node)
+            A_ = m12(*lit)
+        elif lit is not None and val.ndim == 1 and full(e0) and not isinstance(e2, ast.Slice) and ex.ev(e2, st) == 0:
+            used('G[:, m, 0] = (a, b) on a core with r1 = 2, r2 = 1 -> slice m becomes the column [[a], [b]]')
+            ex.oblige(st, 'call-pre', 'column-store-fills-the-whole-slice (r1 = 2, r2 = 1)', z3.And(Z(b.shape[0]) == 2, Z(b.shape[2]) == 1), node)
+            A_ = m21(*lit)
+        elif lit is not None and val.ndim == 2 and full(e0) and full(e2):
+            used('G[:, m, :] = 2 x 2 matrix on a core with r1 = r2 = 2 -> slice m becomes that matrix')
+            ex.oblige(st, 'call-pre', 'slice-assignment-shape-matches (r1 = 2, r2 = 2)', z3.And(Z(b.shape[0]) == 2, Z(b.shape[2]) == 2), node)
+            A_ = val.t
+        if A_ is not None:
+            m = M.norm_index(ex, st, ex.need_num(st, ex.ev(e1, st), node), b.shape[1], node, 'mode-index')
+            return VArr(b.shape, csl(b.t, Z(m), A_), 'core')
+    return _orig_setitem2(ex, st, b, sl_, v, node)
+
+
+M.arr_setitem = arr_setitem2
